@@ -127,7 +127,7 @@ def _wkey(w):
 
 
 def write_replay(prop, key, entry, tier, seed):
-    d = os.path.join(VERIF, "replays", prop)
+    d = os.path.join(os.environ.get("VERIF_REPLAY_DIR") or os.path.join(VERIF, "replays"), prop)
     os.makedirs(d, exist_ok=True)
     name = re.sub(r"[^A-Za-z0-9_.-]+", "_", key)[:100] + ".json"
     path = os.path.join(d, name)
@@ -138,7 +138,7 @@ def write_replay(prop, key, entry, tier, seed):
 
 
 def write_evidence(prop, ev):
-    d = os.path.join(VERIF, "evidence")
+    d = os.environ.get("VERIF_EVIDENCE_DIR") or os.path.join(VERIF, "evidence")
     os.makedirs(d, exist_ok=True)
     path = os.path.join(d, prop + ".json")
     tmp = path + ".tmp%d" % os.getpid()
